@@ -61,6 +61,10 @@ class ChunkParser:
             elif line.strip() != b'':
                 # Chunk extensions (if any) follow the size after a semicolon
                 self.size = int(line.split(b';', 1)[0], 16)
+                if self.size < 0:
+                    # int() accepts a sign: a negative size would never be
+                    # satisfied and parse() would spin on the same bytes forever
+                    raise ValueError('Negative chunk size %r' % line)
                 if self.size != 0:
                     self.state = chunkParserStates.WAITING_FOR_DATA
             # else: blank line i.e. CRLF terminating previous chunk data, skip it
